@@ -445,16 +445,17 @@ fn causes_by_repair(input: &str, strict: &qg::UserInputAst) -> Option<(Vec<&'sta
     Some((causes, full))
 }
 
-/// `ast-differs:<class>`, narrowed for the one recorded family of occur differences: a
-/// backslash-escaped blank in the input (the two grammars end the word before it differently,
-/// which changes what the next operator binds to).
+/// `ast-differs:<class>`, narrowed for one recorded family: a backslash-escaped blank in the
+/// input (the two grammars end the word before it differently, which changes the literal and
+/// what the next operator binds to).
 fn ast_differs_symptom(input: &str, strict: &qg::UserInputAst, lenient: &qg::UserInputAst) -> String {
     let class = ast_diff_class(strict, lenient);
     let escaped_blank = input
         .char_indices()
         .any(|(i, c)| c == '\\' && input[i + 1..].chars().next().map(|n| n.is_whitespace()).unwrap_or(false));
-    if class == "occur" && escaped_blank {
-        "ast-differs:occur:backslash-escaped-blank-in-the-input".to_string()
+    if escaped_blank && !class.contains("range") && !class.contains("regex") && !class.contains("operands") {
+        // (the classes with their own recorded causes keep their names)
+        format!("ast-differs:{class}:backslash-escaped-blank-in-the-input")
     } else {
         format!("ast-differs:{class}")
     }
